@@ -494,6 +494,13 @@ class World:
         else:
             raise ValueError(name)
         self.mc = mc
+        # what the *user* configured (constructor arguments, later property assignments): the reference for
+        # "parameters changed on the simulation object apply to the next trial"
+        self.user = {k: p.get(k) for k in ("temperature", "pressure", "external_stress", "chemical_potential", "accessible_volume")}
+        if name == "GrandCanonical" and self.user.get("accessible_volume") is None:
+            self.user["accessible_volume"] = float(abs(np.linalg.det(self.atoms.cell.array)))
+        if name == "Isotension" and self.user.get("external_stress") is None:
+            self.user["external_stress"] = np.zeros((3, 3)).tolist()
         if self.opts.get("simgen", True):
             self.gen = rngseam.install(mc)
         else:
@@ -680,6 +687,7 @@ class World:
             for k, v in ch.items():
                 if hasattr(type(mc), k):
                     setattr(mc, k, v)
+                    self.user[k] = v
                     self.result.count("fault.param_change")
         pre = self.sc.get("preselect", {}).get(t)
         if pre and name in self.mc.moves and type(self.mc.moves[name].move).__name__ != "CompositeMove":
